@@ -294,16 +294,17 @@ where
         }
     });
 
-    let mut child = conn.child.take().unwrap();
+    // only --activate and --bridge connections have a child process to watch
+    let child_watch = conn.child.take().map(|mut child| {
+        thread::spawn({
+            let tx_end = tx_end;
 
-    let child_watch = thread::spawn({
-        let tx_end = tx_end;
-
-        move || {
-            let r = child.wait();
-            tx_end.send(3).expect("channel should be open");
-            r
-        }
+            move || {
+                let r = child.wait();
+                tx_end.send(3).expect("channel should be open");
+                r
+            }
+        })
     });
 
     let end_tid = rx_end.recv()?;
@@ -344,8 +345,11 @@ where
         }
         3 => {
             let cr = child_watch
-                .join()
-                .unwrap_or_else(|_| Err(io::Error::from(io::ErrorKind::BrokenPipe)));
+                .map(|w| {
+                    w.join()
+                        .unwrap_or_else(|_| Err(io::Error::from(io::ErrorKind::BrokenPipe)))
+                })
+                .transpose();
 
             let _ = stream.shutdown();
 
